@@ -43,11 +43,21 @@ def build_graph(
             style = BLOB_NODE_STYLE
         if present_blobs:
             style = BLOB_NODE_STYLE if n.node_hash in present_blobs else EVAL_NODE_STYLE
-        g.add_node(pydot.Node(name=str(n.path), **style))
+        g.add_node(pydot.Node(name=_node_name(n.path), **style))
     for e in s.deps:
         style = _edge_styles[e.edge_type]
-        g.add_edge(pydot.Edge(src=str(e.from_path), dst=str(e.to_path), **style))
+        g.add_edge(
+            pydot.Edge(
+                src=_node_name(e.from_path), dst=_node_name(e.to_path), **style
+            )
+        )
     return g
+
+
+def _node_name(path: DDSPath) -> str:
+    # The name is quoted here: otherwise, what follows a colon in a path is taken for the port of
+    # the node. The double quote is the only character to escape in a quoted string.
+    return '"' + str(path).replace('"', '\\"') + '"'
 
 
 def draw_graph(
